@@ -297,6 +297,18 @@ def _properties_part(e, node, cls, kw, fields, defaults, sort_keys, scenario, fr
         if list(tpd) != exp_tpd or any(tpd[n] != value_of(n) for n in exp_tpd):
             scenario.update(accessor="to_properties_dict", got=list(tpd), expected=exp_tpd)
             e.fail("to-properties-dict-mismatch", scenario=scenario)
+        # a successor that takes over the node's id (same comparable content, the predecessor no
+        # longer registered) but differs in its non-comparable properties: every accessor
+        # reports the successor's own values
+        nc = [n for n, k in fields if k == "pnc"]
+        if nc:
+            succ = node.replace(**{n: 777 for n in nc})
+            tpd2 = succ.to_properties_dict()
+            gp2 = {f.name: v for v, f in succ.get_properties(True, True, True, False, False)}
+            bad = [n for n in nc if tpd2.get(n) != 777 or gp2.get(n) != 777 or getattr(succ, n) != 777]
+            if bad or list(tpd2) != exp_tpd:
+                scenario.update(accessor="to_properties_dict / get_properties of a successor created by replace()", fields=bad, got={n: (tpd2.get(n), gp2.get(n)) for n in nc})
+                e.fail("accessor-reports-values-of-an-earlier-equal-node", scenario=scenario)
 
 
 _MI_CACHE: dict[str, Any] = {}
